@@ -6,7 +6,7 @@
 From Coq Require Import List NArith ZArith Arith Lia.
 From Gemato Require Import Py.PyStr Py.PyPath Gen.Tables Model.Entry Model.Text Model.OpenPGP Model.Hash Model.FS
   Model.Verify Model.Loader Model.Update.
-From Gemato Require Import Proofs.WalkTerm Proofs.UnregTerm Proofs.UpdateTerm Proofs.WalkComplete Proofs.NoLoop Proofs.Once Proofs.DictWf Proofs.NoLoopTop.
+From Gemato Require Import Proofs.WalkTerm Proofs.UnregTerm Proofs.UpdateTerm Proofs.WalkComplete Proofs.NoLoop Proofs.Once Proofs.DictWf Proofs.NoLoopTop Proofs.NoLoopUpd.
 From Gemato Require Import Exec.Oracles.
 Import ListNotations.
 Open Scope N_scope.
@@ -83,6 +83,21 @@ Theorem C16_no_loop_is_walked_into : forall (L : hashlib) decompress pgp w l pat
 Proof. exact verification_walks_into_no_loop_any. Qed.
 Print Assumptions C16_no_loop_is_walked_into.
 
+(* the same for update / create: when update_entries_for_directory returns for any relative path, every directory its walk reached -
+   through listed sub-directories that are not hidden and have no entry in the de-duplicated dictionary it starts from - has an
+   identity different from those of all the directories passed on the way to it: no Manifest is created or rewritten through a link
+   that leads back to an ancestor *)
+Theorem C16_update_walks_into_no_loop : forall (L : hashlib) decompress pgp w l path hashes lm l',
+  wf_world w -> rel_start path ->
+  update_entries_for_directory L decompress pgp w l path hashes lm = Ok l' ->
+  exists l1 nm l2 ed,
+    load_unregistered_manifests L decompress pgp w l path false = Ok (l1, nm) /\
+    get_dedup_dict L decompress pgp w l1 path false = Ok (l2, ed) /\
+    forall dp rel anc, reachu w ed (walk_top path) path [] dp rel anc ->
+      forall st, p_stat w dp = Ok st -> ~ In (st_dev st, st_ino st) anc.
+Proof. exact update_walks_into_no_loop. Qed.
+Print Assumptions C16_update_walks_into_no_loop.
+
 (* non-vacuity: the directory s holds an entry t that leads back to s itself; the premises hold, s/t is reached with the identity of
    s among the identities passed, and the verification of s ends with the symlink-loop error for s/t *)
 Definition c16_w : world :=
@@ -120,3 +135,26 @@ Example C16_top_loop_example :
     new_loader (table_hashlib []) c16_dec c16_pgp c16_top_w [77;97;110;105;102;101;115;116] (mk_opts None false None [] PDefault None None false) false true = Ok l0 /\
     assert_directory_verifies (table_hashlib []) c16_dec c16_pgp c16_top_w l0 [] PolFalse None = Err (XSymlinkLoop (pjoin (walk_top []) [100])).
 Proof. split; [exact I|]. eexists. split; [vm_compute; reflexivity|]. vm_compute. reflexivity. Qed.
+
+(* non-vacuity for the update: in a tree without loops the update of s returns, and s/t is reached with the identity of s passed on
+   the way; in the tree of the first example (s/t leads back to s) the update of s ends with the symlink-loop error for s/t *)
+Definition c16_ok_w : world :=
+  mk_world 1 [(1, IDir 7 1 [([77;97;110;105;102;101;115;116], TIno 2); ([115], TIno 4)]);
+              (2, IFile 7 0 0 []); (4, IDir 7 1 [([116], TIno 5)]); (5, IDir 7 4 [])] [] [].
+Example C16_update_loop_example :
+  (exists l0 l1 nm l2 ed l',
+    new_loader (table_hashlib []) c16_dec c16_pgp c16_ok_w [77;97;110;105;102;101;115;116] (mk_opts None false None [] PDefault None None false) false true = Ok l0 /\
+    load_unregistered_manifests (table_hashlib []) c16_dec c16_pgp c16_ok_w l0 [115] false = Ok (l1, nm) /\
+    get_dedup_dict (table_hashlib []) c16_dec c16_pgp c16_ok_w l1 [115] false = Ok (l2, ed) /\
+    reachu c16_ok_w ed (walk_top [115]) [115] [] (pjoin (walk_top [115]) [116]) (pjoin [115] [116]) [(7, 4)] /\
+    update_entries_for_directory (table_hashlib []) c16_dec c16_pgp c16_ok_w l0 [115] (Some []) None = Ok l') /\
+  exists l0,
+    new_loader (table_hashlib []) c16_dec c16_pgp c16_w [77;97;110;105;102;101;115;116] (mk_opts None false None [] PDefault None None false) false true = Ok l0 /\
+    update_entries_for_directory (table_hashlib []) c16_dec c16_pgp c16_w l0 [115] (Some []) None = Err (XSymlinkLoop (pjoin (walk_top [115]) [116])).
+Proof.
+  split.
+  - do 6 eexists. split; [vm_compute; reflexivity|]. split; [vm_compute; reflexivity|]. split; [vm_compute; reflexivity|]. split.
+    { eapply reachu_down; [vm_compute; reflexivity|vm_compute; reflexivity|vm_compute; left; reflexivity|reflexivity|vm_compute; reflexivity|apply reachu_here]. }
+    vm_compute. reflexivity.
+  - eexists. split; [vm_compute; reflexivity|]. vm_compute. reflexivity.
+Qed.
